@@ -108,6 +108,24 @@ def main() -> int:
                     **({"plan": {"fn": "ops", "args": {"seed": i, "calls_per_op": 3, "import": False}}} if behavioural else {}))
         info[j["id"]] = (f"random:{i}", descs)
         jobs.append(j)
+    for label_, d_ in docs.rare_feature_docs():
+        for gat_ in (False, True):
+            j = run.job(d_, want=["manifest", "tree"], sandbox=[{"a": "getattr", "module": "models", "name": "__all__"}], cfg={"generate_all_tags": gat_})
+            info[j["id"]] = (label_ + (":all_tags" if gat_ else ""), [{"position": "rare_feature"}])
+            jobs.append(j)
+    # a document in another encoding than UTF-8 whose names differ only in non-ASCII letters: refused, or every item accounted for (never decoded lossily)
+    import base64 as _b64
+    import json as _json
+    okr_ = {"200": {"description": "ok"}}
+    dl = docs.base_doc("3.0.3", "Latin names")
+    dl["components"]["schemas"] = {"Se\u00e1l": {"type": "object", "properties": {"a": {"type": "string"}}}, "Se\u00e4l": {"type": "object", "properties": {"b": {"type": "integer"}}}, "Plain": {"type": "object", "properties": {"c": {"type": "string"}}}}
+    dl["paths"] = {"/m\u00e9n": {"get": {"operationId": "get_m\u00e9n", "tags": ["t"], "responses": okr_}}, "/m\u00ean": {"get": {"operationId": "get_m\u00ean", "tags": ["t"], "responses": okr_}}, "/plain": {"get": {"operationId": "get_plain", "tags": ["t"], "responses": okr_}}}
+    for enc_ in ("latin-1", "cp1252", "utf-8", "utf-8-sig", "utf-16"):
+        for sfx_ in (".json", ".yaml"):
+            raw_ = _json.dumps(dl, ensure_ascii=False).encode(enc_)
+            j = run.job(dl, want=["manifest", "tree"], raw_b64=_b64.b64encode(raw_).decode(), suffix=sfx_, sandbox=[{"a": "getattr", "module": "models", "name": "__all__"}])
+            info[j["id"]] = (f"encoded:{enc_}:{sfx_}", [{"position": "document_encoding", "encoding": enc_}])
+            jobs.append(j)
     rs = run.map(jobs, timeout=300)
     for j, res in zip(jobs, rs):
         label, descs = info[j["id"]]
